@@ -328,3 +328,4 @@ TECHNIQUE = 'runtime oracle: eval round-trip with type identity and base-class v
 LEVEL_TEXT = ('45 generated subclasses (5 variants of 9 built-in bases) plus IntEnum/str-Enum/IntFlag members are instantiated over boundary values of the base type and printed in five '
               'contexts at boundary-directed widths; the evaluated result must be an instance of exactly that subclass with the same underlying value and the text must be a call of its qualified name.')
 LEVEL_NOTE = 'The class family is fixed (not random programs); overriding dunders other than __repr__/__str__ is outside the generator.'
+ANCHORS = ['prettyprinter.pretty_bracketable_iterable', 'prettyprinter.pretty_dict', 'prettyprinter.pretty_str', 'prettyprinter.pretty_int', 'prettyprinter.pretty_float', 'prettyprinter.pretty_frozenset', 'prettyprinter.general_identifier']
